@@ -1,8 +1,17 @@
 import StorageModel.Driver.Common
 import StorageModel.C17.Snapshot
+import StorageModel.C17.Staged
 import StorageModel.C17.LockTable
 import StorageModel.Generated.DbLocks
 /- model driver for C17 (line protocol documented in /verif/harness/c17.go).
+
+   ops of the enlarged vocabulary (C17/Staged.lean):
+     restc:<k>:<pre>:<chunk>:<d|s>:<cbs>   RestoreFromReader(reader issuing calls); cbs = `-` or `;`-joined
+                                           <pos>=<op with ~ for :>, pos = f | m<permille> | e
+                                           -> restoredc:<fired>:<dump>:<what the calls returned, |-joined, ~ for :>
+     snaptc:<k>:<pre>:<post>  snapuc:<k>:<ws>:<pre>:<post>  streamc:<k>:<pre>:<post>
+                                           reading calls (g = GetSnapshotId, d = dump; `-` none) inside the
+                                           transaction before / after the copy -> intx:<pre obs>:<main obs>:<post obs>
 
    default mode : case line                  -> the model's observations
    `spec` mode  : case line TAB impl output  -> `ok`, or `fail@<i>:<op>` naming the first operation at
@@ -52,6 +61,39 @@ def parseOp (tok : String) : Option Op :=
   | ["dump"] => some .dump
   | _ => none
 
+def parsePos (p : String) : Option Pos :=
+  match p.toList with
+  | ['f'] => some .first
+  | ['e'] => some .eof
+  | 'm' :: r => (String.ofList r).toNat?.map .at
+  | _ => none
+
+def parseCb (c : String) : Option Cb :=
+  match c.splitOn "=" with
+  | [p, o] => do pure ⟨← parsePos p, ← parseOp (o.replace "~" ":")⟩
+  | _ => none
+
+def parseCbs (c : String) : Option (List Cb) :=
+  if c == "-" then some [] else (c.splitOn ";").mapM parseCb
+
+def parseRo (r : String) : Option (List RoAct) :=
+  if r == "-" then some [] else r.toList.mapM fun ch =>
+    match ch with
+    | 'g' => some RoAct.gsid
+    | 'd' => some RoAct.dump
+    | _ => none
+
+def parseXOp (tok : String) : Option XOp :=
+  match tok.splitOn ":" with
+  | ["restc", k, pre, chunk, e, cbs] => do
+    let pre ← if pre == "-" then some [] else (pre.splitOn "+").mapM (·.toNat?)
+    let c ← if chunk == "w" then some (2 ^ 40) else chunk.toNat?
+    pure (.restoreCb (← k.toNat?) { pre := pre, chunk := c - 1, eofWithData := e == "d" } (← parseCbs cbs))
+  | ["snaptc", k, a, b] => do pure (.inTx (.viewSnap (← k.toNat?)) (← parseRo a) (← parseRo b))
+  | ["snapuc", k, ws, a, b] => do pure (.inTx (.updSnap (← k.toNat?) (← parseWrites ws)) (← parseRo a) (← parseRo b))
+  | ["streamc", k, a, b] => do pure (.inTx (.stream (← k.toNat?)) (← parseRo a) (← parseRo b))
+  | _ => (parseOp tok).map .plain
+
 def optNat (o : Option Nat) : String := match o with | some n => toString n | none => "-"
 
 def renderDb (d : Db) : String :=
@@ -73,6 +115,15 @@ def renderObs : Obs → String
   | .tl id c => s!"tl:{optNat id}:{c}"
   | .tlerr c => s!"tlerr:{c}"
   | .dump d => s!"dump:{renderDb d}"
+
+def renderInner (l : List Obs) : String :=
+  if l.isEmpty then "-" else "|".intercalate (l.map fun o => (renderObs o).replace ":" "~")
+
+def renderXObs : XObs → String
+  | .plain o => renderObs o
+  | .restoredCb during f d => s!"restoredc:{f}:{renderDb d}:{renderInner during}"
+  | .restoreFailed during => s!"restorefailed:{renderInner during}"
+  | .inTx a m b => s!"intx:{renderInner a}:{(renderObs m).replace ":" "~"}:{renderInner b}"
 
 def parseOptNat (s : String) : Option (Option Nat) :=
   if s == "-" then some none else (s.toNat?).map some
@@ -116,6 +167,15 @@ def parseObs (tok : String) : Option Obs :=
   | ["dump", d] => do pure (.dump (← parseDb d))
   | _ => none
 
+def parseInner (s : String) : Option (List Obs) :=
+  if s == "-" then some [] else (s.splitOn "|").mapM fun o => parseObs (o.replace "~" ":")
+
+def parseXObs (tok : String) : Option XObs :=
+  match tok.splitOn ":" with
+  | ["restoredc", f, d, during] => do pure (.restoredCb (← parseInner during) (← f.toNat?) (← parseDb d))
+  | ["intx", a, m, b] => do pure (.inTx (← parseInner a) (← parseObs (m.replace "~" ":")) (← parseInner b))
+  | _ => (parseObs tok).map .plain
+
 /-- allowed outcomes of a concurrent population, from the regenerated lock table: only `ok` when
     every program is flat (theorems `no_mixed_view`, `no_deadlock_flat`), `ok|hang` when some
     program takes the read lock re-entrantly (deadlock reachable, see Properties/C17) -/
@@ -141,8 +201,8 @@ def stageOutcomes (which : String) : String :=
 def step (line : String) : String :=
   match splitSp line with
   | "seq" :: toks =>
-    match toks.mapM parseOp with
-    | some ops => " ".intercalate ((StorageModel.C17.run {} ops).2.map renderObs)
+    match toks.mapM parseXOp with
+    | some ops => " ".intercalate ((StorageModel.C17.xrun {} ops).2.map renderXObs)
     | none => "bad-case"
   | ["conc", kinds, _, _] => concOutcomes kinds
   | ["stage", which] => stageOutcomes which
@@ -153,10 +213,10 @@ def specStep (line : String) : String :=
   | [case, impl] =>
     match splitSp case with
     | "seq" :: toks =>
-      match toks.mapM parseOp, (splitSp impl).mapM parseObs with
+      match toks.mapM parseXOp, (splitSp impl).mapM parseXObs with
       | some ops, some obs =>
         if obs.length != ops.length then "unparsed"
-        else match specFirstFail {} ops obs 0 with
+        else match xspecFirstFail {} ops obs 0 with
           | none => "ok"
           | some i => s!"fail@{i}:{toks.getD i "?"}"
       | _, _ => "unparsed"
